@@ -141,6 +141,30 @@ func init() {
 				{File: ag, Old: "// AddRoute adds or updates an agent presence route in the table.\n// Returns true if the route was added/updated, false if rejected (e.g., loop detected).\nfunc (t *AgentTable) AddRoute(route *AgentRoute) bool {\n\tif route == nil {\n\t\treturn false\n\t}\n\n\t// Check for routing loops (is our ID in the path?)\n\tfor _, id := range route.Path {\n\t\tif id == t.localID {\n\t\t\treturn false // Loop detected\n\t\t}\n\t}\n\n\tt.mu.Lock()\n\tdefer t.mu.Unlock()\n\n\tkey := route.AgentID\n\n\t// Check if we already have a route from this origin via this next hop\n\tfor i, r := range t.routes[key] {\n\t\tif r.OriginAgent == route.OriginAgent && r.NextHop == route.NextHop {\n\t\t\t// Update if newer sequence or better metric\n\t\t\tif route.Sequence > r.Sequence ||\n\t\t\t\t(route.Sequence == r.Sequence && route.Metric < r.Metric) {\n\t\t\t\tcloned := route.Clone()\n\t\t\t\tcloned.LastUpdate = time.Now()\n\t\t\t\tt.routes[key][i] = cloned\n\t\t\t\tt.sortRoutes(key)\n\t\t\t\treturn true\n\t\t\t}\n\t\t\treturn false // Older/worse route\n\t\t}\n\t}\n\n\t// New route from this origin/nexthop\n\tcloned := route.Clone()\n\tcloned.LastUpdate = time.Now()\n\tt.routes[key] = append(t.routes[key], cloned)\n\tt.sortRoutes(key)\n\treturn true\n}\n\n// sortRoutes sorts routes for an agent by metric (lowest first).\nfunc (t *AgentTable) sortRoutes(key identity.AgentID) {\n\troutes := t.routes[key]\n\tsort.Slice(routes, func(i, j int) bool {\n\t\treturn routes[i].Metric < routes[j].Metric\n\t})\n}\n\n// RemoveRoute removes an agent presence route from a specific origin.\nfunc (t *AgentTable) RemoveRoute(agentID, originAgent identity.AgentID) bool {\n\tt.mu.Lock()\n\tdefer t.mu.Unlock()\n\n\troutes := t.routes[agentID]\n\tfor i, r := range routes {\n\t\tif r.OriginAgent == originAgent {\n\t\t\tt.routes[agentID] = append(routes[:i], routes[i+1:]...)\n\t\t\tif len(t.routes[agentID]) == 0 {\n\t\t\t\tdelete(t.routes, agentID)\n\t\t\t}\n\t\t\treturn true\n\t\t}\n\t}\n\treturn false\n}\n\n// RemoveRoutesFromPeer removes all agent routes learned from a specific peer.\nfunc (t *AgentTable) RemoveRoutesFromPeer(peerID identity.AgentID) int {\n\tt.mu.Lock()\n\tdefer t.mu.Unlock()\n\n\tcount := 0\n\tfor agentID, routes := range t.routes {\n\t\tfiltered := routes[:0]\n\t\tfor _, r := range routes {\n\t\t\tif r.NextHop != peerID {\n\t\t\t\tfiltered = append(filtered, r)\n\t\t\t} else {\n\t\t\t\tcount++\n\t\t\t}\n\t\t}\n\t\tif len(filtered) == 0 {\n\t\t\tdelete(t.routes, agentID)\n\t\t} else {\n\t\t\tt.routes[agentID] = filtered\n\t\t}\n\t}\n\treturn count\n}\n", New: "// AddRoute adds or updates an agent presence route in the table.\n// Returns true if the route was added/updated, false if rejected (e.g., loop detected).\nfunc (t *AgentTable) AddRoute(route *AgentRoute) bool {\n\tif route == nil {\n\t\treturn false\n\t}\n\n\t// Check for routing loops (is our ID in the path?)\n\tif pathHasLoop(route.Path, t.localID) {\n\t\treturn false\n\t}\n\n\tt.mu.Lock()\n\tdefer t.mu.Unlock()\n\n\tkey := route.AgentID\n\n\t// Check if we already have a route from this origin via this next hop\n\tbucket := t.routes[key]\n\tidx := slices.IndexFunc(bucket, func(r *AgentRoute) bool {\n\t\treturn r.OriginAgent == route.OriginAgent && r.NextHop == route.NextHop\n\t})\n\tif idx >= 0 {\n\t\t// Update only if newer sequence or better metric\n\t\tstored := bucket[idx]\n\t\tif !supersedes(route.Sequence, route.Metric, stored.Sequence, stored.Metric) {\n\t\t\treturn false // Older/worse route\n\t\t}\n\t}\n\n\tcloned := route.Clone()\n\tcloned.LastUpdate = time.Now()\n\tif idx >= 0 {\n\t\tbucket[idx] = cloned\n\t} else {\n\t\t// New route from this origin/nexthop\n\t\tt.routes[key] = append(bucket, cloned)\n\t\tt.sortRoutes(key)\n\t}\n\treturn true\n}\n\n// sortRoutes sorts routes for an agent by metric (lowest first).\nfunc (t *AgentTable) sortRoutes(key identity.AgentID) {\n\troutes := t.routes[key]\n\tsort.Slice(routes, func(i, j int) bool {\n\t\treturn routes[i].Metric < routes[j].Metric\n\t})\n}\n\n// RemoveRoute removes an agent presence route from a specific origin.\nfunc (t *AgentTable) RemoveRoute(agentID, originAgent identity.AgentID) bool {\n\tt.mu.Lock()\n\tdefer t.mu.Unlock()\n\n\tbucket := t.routes[agentID]\n\tidx := slices.IndexFunc(bucket, func(r *AgentRoute) bool {\n\t\treturn r.OriginAgent == originAgent\n\t})\n\tif idx < 0 {\n\t\treturn false\n\t}\n\n\tbucket = slices.Delete(bucket, idx, idx+1)\n\tif len(bucket) == 0 {\n\t\tdelete(t.routes, agentID)\n\t} else {\n\t\tt.routes[agentID] = bucket\n\t}\n\treturn true\n}\n\n// RemoveRoutesFromPeer removes all agent routes learned from a specific peer.\nfunc (t *AgentTable) RemoveRoutesFromPeer(peerID identity.AgentID) int {\n\tt.mu.Lock()\n\tdefer t.mu.Unlock()\n\n\tnotViaPeer := func(r *AgentRoute) bool { return r.NextHop != peerID }\n\n\tcount := 0\n\tfor agentID, routes := range t.routes {\n\t\tremaining, dropped := retainInPlace(routes, notViaPeer)\n\t\tcount += dropped\n\t\tif len(remaining) == 0 {\n\t\t\tdelete(t.routes, agentID)\n\t\t} else {\n\t\t\tt.routes[agentID] = remaining\n\t\t}\n\t}\n\treturn count\n}\n\n// pathHasLoop reports whether the local agent already appears in an\n// advertised path, i.e. accepting the route would create a routing loop.\nfunc pathHasLoop(path []identity.AgentID, localID identity.AgentID) bool {\n\treturn slices.Contains(path, localID)\n}\n\n// supersedes reports whether an advertisement carrying (newSeq, newMetric)\n// replaces a stored entry carrying (oldSeq, oldMetric): a newer sequence always\n// wins, the same sequence wins only with a strictly better metric.\nfunc supersedes(newSeq uint64, newMetric uint16, oldSeq uint64, oldMetric uint16) bool {\n\tif newSeq != oldSeq {\n\t\treturn newSeq > oldSeq\n\t}\n\treturn newMetric < oldMetric\n}\n\n// retainInPlace keeps the entries for which keep returns true, reusing the\n// backing array of routes. It returns the kept entries and how many were dropped.\nfunc retainInPlace[R any](routes []R, keep func(R) bool) ([]R, int) {\n\tkept := routes[:0]\n\tdropped := 0\n\tfor _, r := range routes {\n\t\tif keep(r) {\n\t\t\tkept = append(kept, r)\n\t\t} else {\n\t\t\tdropped++\n\t\t}\n\t}\n\treturn kept, dropped\n}\n\n// retainCopy keeps the entries for which keep returns true in a freshly\n// allocated slice (nil when nothing is kept), leaving routes untouched.\n// It returns the kept entries and how many were dropped.\nfunc retainCopy[R any](routes []R, keep func(R) bool) ([]R, int) {\n\tvar kept []R\n\tdropped := 0\n\tfor _, r := range routes {\n\t\tif keep(r) {\n\t\t\tkept = append(kept, r)\n\t\t} else {\n\t\t\tdropped++\n\t\t}\n\t}\n\treturn kept, dropped\n}\n"},
 				{File: ag, Old: "// CleanupStaleRoutes removes agent routes that haven't been updated within maxAge.\n// Local routes (where OriginAgent == localID) are never removed.\n// Returns the number of routes removed.\nfunc (t *AgentTable) CleanupStaleRoutes(maxAge time.Duration) int {\n\tt.mu.Lock()\n\tdefer t.mu.Unlock()\n\n\tnow := time.Now()\n\tremoved := 0\n\n\tfor agentID, routes := range t.routes {\n\t\tvar kept []*AgentRoute\n\t\tfor _, r := range routes {\n\t\t\tif r.OriginAgent == t.localID || now.Sub(r.LastUpdate) <= maxAge {\n\t\t\t\tkept = append(kept, r)\n\t\t\t} else {\n\t\t\t\tremoved++\n\t\t\t}\n\t\t}\n\t\tif len(kept) > 0 {\n\t\t\tt.routes[agentID] = kept\n\t\t} else {\n\t\t\tdelete(t.routes, agentID)\n\t\t}\n\t}\n\treturn removed\n}\n", New: "// CleanupStaleRoutes removes agent routes that haven't been updated within maxAge.\n// Local routes (where OriginAgent == localID) are never removed.\n// Returns the number of routes removed.\nfunc (t *AgentTable) CleanupStaleRoutes(maxAge time.Duration) int {\n\tt.mu.Lock()\n\tdefer t.mu.Unlock()\n\n\tnow := time.Now()\n\tlocalOrFresh := func(r *AgentRoute) bool {\n\t\treturn r.OriginAgent == t.localID || now.Sub(r.LastUpdate) <= maxAge\n\t}\n\n\tremoved := 0\n\tfor agentID, routes := range t.routes {\n\t\tkept, dropped := retainCopy(routes, localOrFresh)\n\t\tremoved += dropped\n\t\tif len(kept) > 0 {\n\t\t\tt.routes[agentID] = kept\n\t\t} else {\n\t\t\tdelete(t.routes, agentID)\n\t\t}\n\t}\n\treturn removed\n}\n"},
 			}},
+			{Name: "round5 rewrite: lookup inlined, strings.Cut predicate, bestDomainRoute(list) helper (C09/a shape)", Edits: []Edit{
+				{File: d, Old: "// Lookup finds the best domain route for a domain name.\n// First checks exact matches, then single-level wildcards.\nfunc (t *DomainTable) Lookup(domain string) *DomainRoute {\n\tt.mu.RLock()\n\tdefer t.mu.RUnlock()\n\n\treturn t.lookupUnlocked(domain)\n}\n\n// lookupUnlocked performs lookup without locking (caller must hold lock).\nfunc (t *DomainTable) lookupUnlocked(domain string) *DomainRoute {\n\tdomain = strings.ToLower(domain)\n\n\t// 1. Check exact match first\n\tif routes, ok := t.exactRoutes[domain]; ok && len(routes) > 0 {\n\t\treturn routes[0].Clone() // First is best due to sorting by metric\n\t}\n\n\t// 2. Check single-level wildcard\n\t// Split at first dot to get parent domain\n\tidx := strings.Index(domain, \".\")\n\tif idx > 0 && idx < len(domain)-1 {\n\t\tbaseDomain := domain[idx+1:]\n\t\tif routes, ok := t.wildcardBase[baseDomain]; ok && len(routes) > 0 {\n\t\t\treturn routes[0].Clone()\n\t\t}\n\t}\n\n\treturn nil\n}\n", New: "// Lookup finds the best domain route for a domain name.\n// First checks exact matches, then single-level wildcards.\nfunc (t *DomainTable) Lookup(domain string) *DomainRoute {\n\tname := strings.ToLower(domain)\n\n\tt.mu.RLock()\n\tdefer t.mu.RUnlock()\n\n\t// 1. Check exact match first (first entry is best due to sorting by metric)\n\tif best := bestDomainRoute(t.exactRoutes[name]); best != nil {\n\t\treturn best\n\t}\n\n\t// 2. Check single-level wildcard\n\t// Split at first dot to get parent domain; both the leading label and\n\t// the parent must be non-empty.\n\tlabel, parent, hasDot := strings.Cut(name, \".\")\n\tif !hasDot || label == \"\" || parent == \"\" {\n\t\treturn nil\n\t}\n\treturn bestDomainRoute(t.wildcardBase[parent])\n}\n\n// bestDomainRoute returns a copy of the head of a metric-sorted route list,\n// or nil when the list is empty.\nfunc bestDomainRoute(sorted []*DomainRoute) *DomainRoute {\n\tif len(sorted) == 0 {\n\t\treturn nil\n\t}\n\treturn sorted[0].Clone()\n}\n"},
+			}},
+			{Name: "round5 rewrite: candidate list chosen first, head cloned once, wildcardCandidates helper, explicit RUnlock (C09/b shape)", Edits: []Edit{
+				{File: d, Old: "// Lookup finds the best domain route for a domain name.\n// First checks exact matches, then single-level wildcards.\nfunc (t *DomainTable) Lookup(domain string) *DomainRoute {\n\tt.mu.RLock()\n\tdefer t.mu.RUnlock()\n\n\treturn t.lookupUnlocked(domain)\n}\n\n// lookupUnlocked performs lookup without locking (caller must hold lock).\nfunc (t *DomainTable) lookupUnlocked(domain string) *DomainRoute {\n\tdomain = strings.ToLower(domain)\n\n\t// 1. Check exact match first\n\tif routes, ok := t.exactRoutes[domain]; ok && len(routes) > 0 {\n\t\treturn routes[0].Clone() // First is best due to sorting by metric\n\t}\n\n\t// 2. Check single-level wildcard\n\t// Split at first dot to get parent domain\n\tidx := strings.Index(domain, \".\")\n\tif idx > 0 && idx < len(domain)-1 {\n\t\tbaseDomain := domain[idx+1:]\n\t\tif routes, ok := t.wildcardBase[baseDomain]; ok && len(routes) > 0 {\n\t\t\treturn routes[0].Clone()\n\t\t}\n\t}\n\n\treturn nil\n}\n", New: "// Lookup finds the best domain route for a domain name.\n// First checks exact matches, then single-level wildcards.\nfunc (t *DomainTable) Lookup(domain string) *DomainRoute {\n\tt.mu.RLock()\n\tbest := t.lookupUnlocked(domain)\n\tt.mu.RUnlock()\n\n\treturn best\n}\n\n// lookupUnlocked performs lookup without locking (caller must hold lock).\nfunc (t *DomainTable) lookupUnlocked(domain string) *DomainRoute {\n\tlowered := strings.ToLower(domain)\n\n\t// 1. Exact match first, 2. then the single-level wildcard\n\tcandidates := t.exactRoutes[lowered]\n\tif len(candidates) == 0 {\n\t\tcandidates = t.wildcardCandidates(lowered)\n\t}\n\n\tif len(candidates) == 0 {\n\t\treturn nil\n\t}\n\treturn candidates[0].Clone() // First is best due to sorting by metric\n}\n\n// wildcardCandidates returns the routes of the wildcard pattern that covers\n// the (lowercase) domain, i.e. \"*.\" + everything after the first dot.\n// A domain without a dot, with an empty first label or with nothing after the\n// first dot is covered by no wildcard.\nfunc (t *DomainTable) wildcardCandidates(lowered string) []*DomainRoute {\n\t// Split at first dot to get parent domain\n\tdot := strings.IndexByte(lowered, '.')\n\tswitch {\n\tcase dot <= 0:\n\t\treturn nil\n\tcase dot >= len(lowered)-1:\n\t\treturn nil\n\t}\n\treturn t.wildcardBase[lowered[dot+1:]]\n}\n"},
+			}},
+			{Name: "round5 rewrite: stored-entry finder + generic headOf, clone in Lookup, parentDomain via SplitN (C09/c shape)", Edits: []Edit{
+				{File: d, Old: "// Lookup finds the best domain route for a domain name.\n// First checks exact matches, then single-level wildcards.\nfunc (t *DomainTable) Lookup(domain string) *DomainRoute {\n\tt.mu.RLock()\n\tdefer t.mu.RUnlock()\n\n\treturn t.lookupUnlocked(domain)\n}\n\n// lookupUnlocked performs lookup without locking (caller must hold lock).\nfunc (t *DomainTable) lookupUnlocked(domain string) *DomainRoute {\n\tdomain = strings.ToLower(domain)\n\n\t// 1. Check exact match first\n\tif routes, ok := t.exactRoutes[domain]; ok && len(routes) > 0 {\n\t\treturn routes[0].Clone() // First is best due to sorting by metric\n\t}\n\n\t// 2. Check single-level wildcard\n\t// Split at first dot to get parent domain\n\tidx := strings.Index(domain, \".\")\n\tif idx > 0 && idx < len(domain)-1 {\n\t\tbaseDomain := domain[idx+1:]\n\t\tif routes, ok := t.wildcardBase[baseDomain]; ok && len(routes) > 0 {\n\t\t\treturn routes[0].Clone()\n\t\t}\n\t}\n\n\treturn nil\n}\n", New: "// Lookup finds the best domain route for a domain name.\n// First checks exact matches, then single-level wildcards.\nfunc (t *DomainTable) Lookup(domain string) *DomainRoute {\n\tt.mu.RLock()\n\tdefer t.mu.RUnlock()\n\n\tif best := t.bestStoredRoute(strings.ToLower(domain)); best != nil {\n\t\treturn best.Clone()\n\t}\n\treturn nil\n}\n\n// bestStoredRoute returns the table's own entry (not a copy) that a lookup of\n// the lowercase name selects, or nil. The caller must hold the lock.\nfunc (t *DomainTable) bestStoredRoute(name string) *DomainRoute {\n\t// 1. Check exact match first; the head of a list is best due to sorting by metric\n\tif exact := headOf(t.exactRoutes[name]); exact != nil {\n\t\treturn exact\n\t}\n\n\t// 2. Check single-level wildcard\n\tif parent, ok := parentDomain(name); ok {\n\t\treturn headOf(t.wildcardBase[parent])\n\t}\n\treturn nil\n}\n\n// parentDomain splits name at its first dot and returns what follows it.\n// ok is false when there is no dot or when either side of it is empty.\nfunc parentDomain(name string) (parent string, ok bool) {\n\tparts := strings.SplitN(name, \".\", 2)\n\tif len(parts) != 2 {\n\t\treturn \"\", false\n\t}\n\tif parts[0] == \"\" || parts[1] == \"\" {\n\t\treturn \"\", false\n\t}\n\treturn parts[1], true\n}\n\n// headOf returns the first entry of a list, or nil for an empty (or missing) list.\nfunc headOf[R any](entries []*R) *R {\n\tif len(entries) > 0 {\n\t\treturn entries[0]\n\t}\n\treturn nil\n}\n"},
+				{File: ag, Old: "// Lookup finds the best agent presence route for a target agent.\nfunc (t *AgentTable) Lookup(agentID identity.AgentID) *AgentRoute {\n\tt.mu.RLock()\n\tdefer t.mu.RUnlock()\n\n\tif routes, ok := t.routes[agentID]; ok && len(routes) > 0 {\n\t\treturn routes[0].Clone() // First is best due to sorting by metric\n\t}\n\treturn nil\n}\n", New: "// Lookup finds the best agent presence route for a target agent.\nfunc (t *AgentTable) Lookup(agentID identity.AgentID) *AgentRoute {\n\tt.mu.RLock()\n\tdefer t.mu.RUnlock()\n\n\t// The head of a list is best due to sorting by metric\n\tbest := headOf(t.routes[agentID])\n\tif best == nil {\n\t\treturn nil\n\t}\n\treturn best.Clone()\n}\n"},
+			}},
+			{Name: "round5: generic headOf returns the last entry", ExpectRule: "C09.R1", Edits: []Edit{
+				{File: d, Old: "// Lookup finds the best domain route for a domain name.\n// First checks exact matches, then single-level wildcards.\nfunc (t *DomainTable) Lookup(domain string) *DomainRoute {\n\tt.mu.RLock()\n\tdefer t.mu.RUnlock()\n\n\treturn t.lookupUnlocked(domain)\n}\n\n// lookupUnlocked performs lookup without locking (caller must hold lock).\nfunc (t *DomainTable) lookupUnlocked(domain string) *DomainRoute {\n\tdomain = strings.ToLower(domain)\n\n\t// 1. Check exact match first\n\tif routes, ok := t.exactRoutes[domain]; ok && len(routes) > 0 {\n\t\treturn routes[0].Clone() // First is best due to sorting by metric\n\t}\n\n\t// 2. Check single-level wildcard\n\t// Split at first dot to get parent domain\n\tidx := strings.Index(domain, \".\")\n\tif idx > 0 && idx < len(domain)-1 {\n\t\tbaseDomain := domain[idx+1:]\n\t\tif routes, ok := t.wildcardBase[baseDomain]; ok && len(routes) > 0 {\n\t\t\treturn routes[0].Clone()\n\t\t}\n\t}\n\n\treturn nil\n}\n", New: "// Lookup finds the best domain route for a domain name.\n// First checks exact matches, then single-level wildcards.\nfunc (t *DomainTable) Lookup(domain string) *DomainRoute {\n\tt.mu.RLock()\n\tdefer t.mu.RUnlock()\n\n\tif best := t.bestStoredRoute(strings.ToLower(domain)); best != nil {\n\t\treturn best.Clone()\n\t}\n\treturn nil\n}\n\n// bestStoredRoute returns the table's own entry (not a copy) that a lookup of\n// the lowercase name selects, or nil. The caller must hold the lock.\nfunc (t *DomainTable) bestStoredRoute(name string) *DomainRoute {\n\t// 1. Check exact match first; the head of a list is best due to sorting by metric\n\tif exact := headOf(t.exactRoutes[name]); exact != nil {\n\t\treturn exact\n\t}\n\n\t// 2. Check single-level wildcard\n\tif parent, ok := parentDomain(name); ok {\n\t\treturn headOf(t.wildcardBase[parent])\n\t}\n\treturn nil\n}\n\n// parentDomain splits name at its first dot and returns what follows it.\n// ok is false when there is no dot or when either side of it is empty.\nfunc parentDomain(name string) (parent string, ok bool) {\n\tparts := strings.SplitN(name, \".\", 2)\n\tif len(parts) != 2 {\n\t\treturn \"\", false\n\t}\n\tif parts[0] == \"\" || parts[1] == \"\" {\n\t\treturn \"\", false\n\t}\n\treturn parts[1], true\n}\n\n// headOf returns the first entry of a list, or nil for an empty (or missing) list.\nfunc headOf[R any](entries []*R) *R {\n\tif len(entries) > 0 {\n\t\treturn entries[len(entries)-1]\n\t}\n\treturn nil\n}\n"},
+				{File: ag, Old: "// Lookup finds the best agent presence route for a target agent.\nfunc (t *AgentTable) Lookup(agentID identity.AgentID) *AgentRoute {\n\tt.mu.RLock()\n\tdefer t.mu.RUnlock()\n\n\tif routes, ok := t.routes[agentID]; ok && len(routes) > 0 {\n\t\treturn routes[0].Clone() // First is best due to sorting by metric\n\t}\n\treturn nil\n}\n", New: "// Lookup finds the best agent presence route for a target agent.\nfunc (t *AgentTable) Lookup(agentID identity.AgentID) *AgentRoute {\n\tt.mu.RLock()\n\tdefer t.mu.RUnlock()\n\n\t// The head of a list is best due to sorting by metric\n\tbest := headOf(t.routes[agentID])\n\tif best == nil {\n\t\treturn nil\n\t}\n\treturn best.Clone()\n}\n"},
+			}},
+			{Name: "round5: list helper prefers the second entry when there is one", ExpectRule: "C09.R1", Edits: []Edit{
+				{File: d, Old: "// Lookup finds the best domain route for a domain name.\n// First checks exact matches, then single-level wildcards.\nfunc (t *DomainTable) Lookup(domain string) *DomainRoute {\n\tt.mu.RLock()\n\tdefer t.mu.RUnlock()\n\n\treturn t.lookupUnlocked(domain)\n}\n\n// lookupUnlocked performs lookup without locking (caller must hold lock).\nfunc (t *DomainTable) lookupUnlocked(domain string) *DomainRoute {\n\tdomain = strings.ToLower(domain)\n\n\t// 1. Check exact match first\n\tif routes, ok := t.exactRoutes[domain]; ok && len(routes) > 0 {\n\t\treturn routes[0].Clone() // First is best due to sorting by metric\n\t}\n\n\t// 2. Check single-level wildcard\n\t// Split at first dot to get parent domain\n\tidx := strings.Index(domain, \".\")\n\tif idx > 0 && idx < len(domain)-1 {\n\t\tbaseDomain := domain[idx+1:]\n\t\tif routes, ok := t.wildcardBase[baseDomain]; ok && len(routes) > 0 {\n\t\t\treturn routes[0].Clone()\n\t\t}\n\t}\n\n\treturn nil\n}\n", New: "// Lookup finds the best domain route for a domain name.\n// First checks exact matches, then single-level wildcards.\nfunc (t *DomainTable) Lookup(domain string) *DomainRoute {\n\tname := strings.ToLower(domain)\n\n\tt.mu.RLock()\n\tdefer t.mu.RUnlock()\n\n\t// 1. Check exact match first (first entry is best due to sorting by metric)\n\tif best := bestDomainRoute(t.exactRoutes[name]); best != nil {\n\t\treturn best\n\t}\n\n\t// 2. Check single-level wildcard\n\t// Split at first dot to get parent domain; both the leading label and\n\t// the parent must be non-empty.\n\tlabel, parent, hasDot := strings.Cut(name, \".\")\n\tif !hasDot || label == \"\" || parent == \"\" {\n\t\treturn nil\n\t}\n\treturn bestDomainRoute(t.wildcardBase[parent])\n}\n\n// bestDomainRoute returns a copy of the head of a metric-sorted route list,\n// or nil when the list is empty.\nfunc bestDomainRoute(sorted []*DomainRoute) *DomainRoute {\n\tif len(sorted) == 0 {\n\t\treturn nil\n\t}\n\tif len(sorted) > 1 {\n\t\treturn sorted[1].Clone()\n\t}\n\treturn sorted[0].Clone()\n}\n"},
+			}},
+			{Name: "round5: candidate list falls back to every wildcard bucket", ExpectRule: "C09.R1", Edits: []Edit{
+				{File: d, Old: "// Lookup finds the best domain route for a domain name.\n// First checks exact matches, then single-level wildcards.\nfunc (t *DomainTable) Lookup(domain string) *DomainRoute {\n\tt.mu.RLock()\n\tdefer t.mu.RUnlock()\n\n\treturn t.lookupUnlocked(domain)\n}\n\n// lookupUnlocked performs lookup without locking (caller must hold lock).\nfunc (t *DomainTable) lookupUnlocked(domain string) *DomainRoute {\n\tdomain = strings.ToLower(domain)\n\n\t// 1. Check exact match first\n\tif routes, ok := t.exactRoutes[domain]; ok && len(routes) > 0 {\n\t\treturn routes[0].Clone() // First is best due to sorting by metric\n\t}\n\n\t// 2. Check single-level wildcard\n\t// Split at first dot to get parent domain\n\tidx := strings.Index(domain, \".\")\n\tif idx > 0 && idx < len(domain)-1 {\n\t\tbaseDomain := domain[idx+1:]\n\t\tif routes, ok := t.wildcardBase[baseDomain]; ok && len(routes) > 0 {\n\t\t\treturn routes[0].Clone()\n\t\t}\n\t}\n\n\treturn nil\n}\n", New: "// Lookup finds the best domain route for a domain name.\n// First checks exact matches, then single-level wildcards.\nfunc (t *DomainTable) Lookup(domain string) *DomainRoute {\n\tt.mu.RLock()\n\tbest := t.lookupUnlocked(domain)\n\tt.mu.RUnlock()\n\n\treturn best\n}\n\n// lookupUnlocked performs lookup without locking (caller must hold lock).\nfunc (t *DomainTable) lookupUnlocked(domain string) *DomainRoute {\n\tlowered := strings.ToLower(domain)\n\n\t// 1. Exact match first, 2. then the single-level wildcard\n\tcandidates := t.exactRoutes[lowered]\n\tif len(candidates) == 0 {\n\t\tcandidates = t.wildcardCandidates(lowered)\n\t}\n\n\tif len(candidates) == 0 {\n\t\treturn nil\n\t}\n\treturn candidates[0].Clone() // First is best due to sorting by metric\n}\n\n// wildcardCandidates returns the routes of the wildcard pattern that covers\n// the (lowercase) domain, i.e. \"*.\" + everything after the first dot.\n// A domain without a dot, with an empty first label or with nothing after the\n// first dot is covered by no wildcard.\nfunc (t *DomainTable) wildcardCandidates(lowered string) []*DomainRoute {\n\t// Split at first dot to get parent domain\n\tdot := strings.IndexByte(lowered, '.')\n\tswitch {\n\tcase dot <= 0:\n\t\treturn nil\n\tcase dot >= len(lowered)-1:\n\t\treturn nil\n\t}\n\tif list := t.wildcardBase[lowered[dot+1:]]; len(list) > 0 {\n\t\treturn list\n\t}\n\tfor _, list := range t.wildcardBase {\n\t\treturn list\n\t}\n\treturn nil\n}\n"},
+			}},
+			{Name: "round5: stored-entry finder called without the read lock", ExpectRule: "C09.R5", ExpectKey: "lookup under lock", Edits: []Edit{
+				{File: d, Old: "// Lookup finds the best domain route for a domain name.\n// First checks exact matches, then single-level wildcards.\nfunc (t *DomainTable) Lookup(domain string) *DomainRoute {\n\tt.mu.RLock()\n\tdefer t.mu.RUnlock()\n\n\treturn t.lookupUnlocked(domain)\n}\n\n// lookupUnlocked performs lookup without locking (caller must hold lock).\nfunc (t *DomainTable) lookupUnlocked(domain string) *DomainRoute {\n\tdomain = strings.ToLower(domain)\n\n\t// 1. Check exact match first\n\tif routes, ok := t.exactRoutes[domain]; ok && len(routes) > 0 {\n\t\treturn routes[0].Clone() // First is best due to sorting by metric\n\t}\n\n\t// 2. Check single-level wildcard\n\t// Split at first dot to get parent domain\n\tidx := strings.Index(domain, \".\")\n\tif idx > 0 && idx < len(domain)-1 {\n\t\tbaseDomain := domain[idx+1:]\n\t\tif routes, ok := t.wildcardBase[baseDomain]; ok && len(routes) > 0 {\n\t\t\treturn routes[0].Clone()\n\t\t}\n\t}\n\n\treturn nil\n}\n", New: "// Lookup finds the best domain route for a domain name.\n// First checks exact matches, then single-level wildcards.\nfunc (t *DomainTable) Lookup(domain string) *DomainRoute {\n\tif best := t.bestStoredRoute(strings.ToLower(domain)); best != nil {\n\t\treturn best.Clone()\n\t}\n\treturn nil\n}\n\n// bestStoredRoute returns the table's own entry (not a copy) that a lookup of\n// the lowercase name selects, or nil. The caller must hold the lock.\nfunc (t *DomainTable) bestStoredRoute(name string) *DomainRoute {\n\t// 1. Check exact match first; the head of a list is best due to sorting by metric\n\tif exact := headOf(t.exactRoutes[name]); exact != nil {\n\t\treturn exact\n\t}\n\n\t// 2. Check single-level wildcard\n\tif parent, ok := parentDomain(name); ok {\n\t\treturn headOf(t.wildcardBase[parent])\n\t}\n\treturn nil\n}\n\n// parentDomain splits name at its first dot and returns what follows it.\n// ok is false when there is no dot or when either side of it is empty.\nfunc parentDomain(name string) (parent string, ok bool) {\n\tparts := strings.SplitN(name, \".\", 2)\n\tif len(parts) != 2 {\n\t\treturn \"\", false\n\t}\n\tif parts[0] == \"\" || parts[1] == \"\" {\n\t\treturn \"\", false\n\t}\n\treturn parts[1], true\n}\n\n// headOf returns the first entry of a list, or nil for an empty (or missing) list.\nfunc headOf[R any](entries []*R) *R {\n\tif len(entries) > 0 {\n\t\treturn entries[0]\n\t}\n\treturn nil\n}\n"},
+				{File: ag, Old: "// Lookup finds the best agent presence route for a target agent.\nfunc (t *AgentTable) Lookup(agentID identity.AgentID) *AgentRoute {\n\tt.mu.RLock()\n\tdefer t.mu.RUnlock()\n\n\tif routes, ok := t.routes[agentID]; ok && len(routes) > 0 {\n\t\treturn routes[0].Clone() // First is best due to sorting by metric\n\t}\n\treturn nil\n}\n", New: "// Lookup finds the best agent presence route for a target agent.\nfunc (t *AgentTable) Lookup(agentID identity.AgentID) *AgentRoute {\n\tt.mu.RLock()\n\tdefer t.mu.RUnlock()\n\n\t// The head of a list is best due to sorting by metric\n\tbest := headOf(t.routes[agentID])\n\tif best == nil {\n\t\treturn nil\n\t}\n\treturn best.Clone()\n}\n"},
+			}},
 			// rewrites
 			{Name: "rewrite: strings.Cut, negated conditions", Edits: []Edit{
 				{File: d, Old: "\tidx := strings.Index(domain, \".\")\n\tif idx > 0 && idx < len(domain)-1 {\n\t\tbaseDomain := domain[idx+1:]\n\t\tif routes, ok := t.wildcardBase[baseDomain]; ok && len(routes) > 0 {\n\t\t\treturn routes[0].Clone()\n\t\t}\n\t}\n", New: "\tlabel, baseDomain, found := strings.Cut(domain, \".\")\n\tif !found || label == \"\" || baseDomain == \"\" {\n\t\treturn nil\n\t}\n\troutes := t.wildcardBase[baseDomain]\n\tif len(routes) == 0 {\n\t\treturn nil\n\t}\n\treturn routes[0].Clone()\n"},
@@ -281,21 +305,55 @@ func (m *c08Model) c09Entry(r *kit.Report, t *c08Table) (entry, scan *ssa.Functi
 func (m *c08Model) c09LockObligation(r *kit.Report, rule string, t *c08Table, entry, scan *ssa.Function, call *ssa.Call) {
 	p := m.p
 	li := kit.Locks(entry)
-	held := true
-	n := 0
-	if call != nil {
-		_, held = li.HeldAt(call, t.mu)
-		n = 1
-	} else {
-		kit.Instrs(scan, func(in ssa.Instruction) {
-			if lk, ok := in.(*ssa.Lookup); ok && c08RouteOfMap(lk.X.Type()) == t.route {
-				n++
-				if _, h := li.HeldAt(lk, t.mu); !h {
-					held = false
+	// bucket-map reads of the entry point: direct map lookups and calls of package helpers
+	// that (transitively) read the table's bucket maps
+	reads := map[*ssa.Function]bool{}
+	var hasReads func(g *ssa.Function, d int) bool
+	hasReads = func(g *ssa.Function, d int) bool {
+		if v, ok := reads[g]; ok {
+			return v
+		}
+		reads[g] = false
+		res := false
+		kit.Instrs(g, func(in ssa.Instruction) {
+			switch x := in.(type) {
+			case *ssa.Lookup:
+				if c08RouteOfMap(x.X.Type()) == t.route {
+					res = true
+				}
+			case *ssa.Range:
+				if c08RouteOfMap(x.X.Type()) == t.route {
+					res = true
+				}
+			case *ssa.Call:
+				if h := kit.CalleeOf(x).Static; h != nil && len(h.Blocks) > 0 && d < 4 && kit.FuncPkgPath(h) == kit.PkgPath(c08Pkg) && hasReads(h, d+1) {
+					res = true
 				}
 			}
 		})
+		reads[g] = res
+		return res
 	}
+	held := true
+	n := 0
+	kit.Instrs(entry, func(in ssa.Instruction) {
+		isRead := false
+		switch x := in.(type) {
+		case *ssa.Lookup:
+			isRead = c08RouteOfMap(x.X.Type()) == t.route
+		case *ssa.Range:
+			isRead = c08RouteOfMap(x.X.Type()) == t.route
+		case *ssa.Call:
+			h := kit.CalleeOf(x).Static
+			isRead = h != nil && len(h.Blocks) > 0 && kit.FuncPkgPath(h) == kit.PkgPath(c08Pkg) && hasReads(h, 0)
+		}
+		if isRead {
+			n++
+			if _, h := li.HeldAt(in, t.mu); !h {
+				held = false
+			}
+		}
+	})
 	r.Decide(held && n > 0, rule, kit.FuncName(entry)+" lookup under lock", p.Pos(entry.Pos()),
 		"the bucket maps are read with the table mutex held",
 		"the lookup reads the bucket map without the table mutex: a concurrent AddRoute between append and sort exposes an unsorted bucket (and races on the map)")
@@ -571,72 +629,279 @@ func (w *c09Walk) run() c09Ret {
 	return c09Ret{kind: "other"}
 }
 
+// c09Fr is one level of helper inlining for the return-shape rule: the helper's parameters
+// stand for the caller's argument values (which live in the parent frame).
+type c09Fr struct {
+	sub    map[*ssa.Parameter]c09V
+	parent *c09Fr
+	fn     *ssa.Function
+}
+
+type c09V struct {
+	v  ssa.Value
+	fr *c09Fr
+}
+
+// c09Res resolves a value through single-store cells and helper parameters down to a value of
+// an outer frame (nil frame = the lookup function itself).
+func c09Res(x c09V) c09V {
+	for i := 0; i < 12; i++ {
+		x.v = c08Resolve(kit.Unwrap(x.v))
+		prm, ok := x.v.(*ssa.Parameter)
+		if !ok || x.fr == nil {
+			return x
+		}
+		b, ok := x.fr.sub[prm]
+		if !ok {
+			return x
+		}
+		x = b
+	}
+	return x
+}
+
+func c09Enter(c *ssa.Call, g *ssa.Function, fr *c09Fr) *c09Fr {
+	nf := &c09Fr{sub: map[*ssa.Parameter]c09V{}, parent: fr, fn: g}
+	for i, prm := range g.Params {
+		if i < len(c.Call.Args) {
+			nf.sub[prm] = c09V{c.Call.Args[i], fr}
+		}
+	}
+	return nf
+}
+
 // c09ReturnShape: structural complement of the scenario walk. Every return of lookup function
 // fn yields nil or element 0 of a bucket obtained by a map lookup on the receiver's bucket
-// maps with an accepted key; every such map access in fn uses an accepted key; a nil return
-// that is not preceded by a bucket lookup is justified by an empty argument / empty table
-// only. This excludes fast paths, caches and alias keys whatever their guarding condition.
+// maps with an accepted key — directly, through result variables and phis, through a copying
+// helper (Clone) or through helpers of the package that themselves return such a head or
+// such a bucket (bestRoute(list), headOf(list), wildcardCandidates(name), a stored-entry
+// finder ...), their parameters read as the caller's arguments. Every bucket-map read reached
+// this way uses an accepted key, none iterates the map, and a nil return that is not preceded
+// by a bucket read is justified by an empty argument / empty table only. This excludes fast
+// paths, caches and alias keys whatever their guarding condition.
 func (m *c08Model) c09ReturnShape(t *c08Table, fn *ssa.Function, keyOK func(f *types.Var, key ssa.Value) bool) []string {
 	p := m.p
 	var bad []string
-	var lookups []*ssa.Lookup
-	kit.Instrs(fn, func(in ssa.Instruction) {
-		switch x := in.(type) {
-		case *ssa.Lookup:
-			if c08RouteOfMap(x.X.Type()) == t.route {
-				lookups = append(lookups, x)
-				f, base := c08Field(x.X)
-				if f == nil || len(fn.Params) == 0 || base != ssa.Value(fn.Params[0]) {
-					bad = append(bad, "the bucket map read at "+p.Pos(x.Pos())+" is not a bucket map of the receiver")
-				} else if !keyOK(f, x.Index) {
-					bad = append(bad, "the bucket read at "+p.Pos(x.Pos())+" is keyed by something other than the requested key (alias / derived key): the route returned need not belong to the requested key")
+	inPkg := func(g *ssa.Function) bool {
+		return g != nil && len(g.Blocks) > 0 && kit.FuncPkgPath(g) == kit.PkgPath(c08Pkg)
+	}
+	// a copying helper: one *R parameter, returns a freshly allocated *R on every path
+	isCopy := func(g *ssa.Function) bool {
+		if !inPkg(g) || len(g.Params) != 1 || c08RouteOfPtr(g.Params[0].Type()) != t.route || g.Signature.Results().Len() != 1 || c08RouteOfPtr(g.Signature.Results().At(0).Type()) != t.route {
+			return false
+		}
+		for _, ret := range kit.Returns(g) {
+			if ret.Block() == g.Recover {
+				continue
+			}
+			if _, fresh := c08Resolve(kit.ReturnResult(ret, 0)).(*ssa.Alloc); !fresh {
+				return false
+			}
+		}
+		return true
+	}
+	// bucket-map reads, in the lookup function and in the helpers it calls
+	readsBuckets := map[*ssa.Function]bool{}
+	var hasReads func(g *ssa.Function, d int) bool
+	hasReads = func(g *ssa.Function, d int) bool {
+		if v, ok := readsBuckets[g]; ok {
+			return v
+		}
+		readsBuckets[g] = false
+		res := false
+		kit.Instrs(g, func(in ssa.Instruction) {
+			switch x := in.(type) {
+			case *ssa.Lookup:
+				if c08RouteOfMap(x.X.Type()) == t.route {
+					res = true
+				}
+			case *ssa.Range:
+				if c08RouteOfMap(x.X.Type()) == t.route {
+					res = true
+				}
+			case *ssa.Call:
+				if h := kit.CalleeOf(x).Static; inPkg(h) && d < 4 && hasReads(h, d+1) {
+					res = true
 				}
 			}
-		case *ssa.Range:
-			if c08RouteOfMap(x.X.Type()) == t.route {
-				bad = append(bad, "the lookup iterates over the bucket map at "+p.Pos(x.Pos())+" instead of reading the bucket of the requested key")
+		})
+		readsBuckets[g] = res
+		return res
+	}
+	checkRead := func(x *ssa.Lookup, fr *c09Fr) {
+		mv := c09Res(c09V{x.X, fr})
+		var f *types.Var
+		var rb c09V
+		if ld, ok := mv.v.(*ssa.UnOp); ok && ld.Op == token.MUL {
+			if fa, ok := ld.X.(*ssa.FieldAddr); ok {
+				f = kit.FieldOfAddr(fa)
+				rb = c09Res(c09V{fa.X, mv.fr})
 			}
 		}
-	})
-	var classify func(v ssa.Value, seen map[ssa.Value]bool) string
-	classify = func(v ssa.Value, seen map[ssa.Value]bool) string {
-		if seen[v] {
-			return ""
+		key := c09Res(c09V{x.Index, fr})
+		switch {
+		case f == nil || len(fn.Params) == 0 || rb.fr != nil || rb.v != ssa.Value(fn.Params[0]):
+			bad = append(bad, "the bucket map read at "+p.Pos(x.Pos())+" is not a bucket map of the receiver")
+		case key.fr != nil:
+			if !keyOK(f, nil) {
+				bad = append(bad, "the bucket read at "+p.Pos(x.Pos())+" is keyed by a value computed inside a helper that is not the requested key")
+			}
+		case !keyOK(f, key.v):
+			bad = append(bad, "the bucket read at "+p.Pos(x.Pos())+" is keyed by something other than the requested key (alias / derived key): the route returned need not belong to the requested key")
 		}
-		seen[v] = true
-		if kit.IsNilConst(v) {
-			return ""
+	}
+	seenFn := map[string]bool{}
+	var scanReads func(g *ssa.Function, fr *c09Fr, d int)
+	scanReads = func(g *ssa.Function, fr *c09Fr, d int) {
+		kit.Instrs(g, func(in ssa.Instruction) {
+			switch x := in.(type) {
+			case *ssa.Lookup:
+				if c08RouteOfMap(x.X.Type()) == t.route {
+					checkRead(x, fr)
+				}
+			case *ssa.Range:
+				if c08RouteOfMap(x.X.Type()) == t.route {
+					bad = append(bad, "the lookup iterates over the bucket map at "+p.Pos(x.Pos())+" instead of reading the bucket of the requested key")
+				}
+			case *ssa.Call:
+				h := kit.CalleeOf(x).Static
+				if inPkg(h) && d < 4 && hasReads(h, 0) {
+					k := fmt.Sprintf("%p/%p", x, fr)
+					if !seenFn[k] {
+						seenFn[k] = true
+						scanReads(h, c09Enter(x, h, fr), d+1)
+					}
+				}
+			}
+		})
+	}
+	scanReads(fn, nil, 0)
+
+	notHead := "a route that is not the head of a bucket read from the table's map is returned (fast path / cache)"
+	var okBucket func(x c09V, d int) string
+	var okRoute func(x c09V, d int, seen map[ssa.Value]bool) string
+	okBucket = func(x c09V, d int) string {
+		x = c09Res(x)
+		if d > 8 {
+			return notHead
 		}
-		if cv, ok := c08CellValue(v); ok {
-			return classify(cv, seen)
-		}
-		switch x := v.(type) {
+		switch s := x.v.(type) {
+		case *ssa.Const:
+			if s.Value == nil {
+				return ""
+			}
+		case *ssa.Lookup:
+			if !s.CommaOk && c08RouteOfMap(s.X.Type()) == t.route {
+				return "" // key and map judged by the read check above
+			}
+		case *ssa.Extract:
+			if lk, ok := s.Tuple.(*ssa.Lookup); ok && s.Index == 0 && c08RouteOfMap(lk.X.Type()) == t.route {
+				return ""
+			}
+			if c, ok := s.Tuple.(*ssa.Call); ok {
+				if g := kit.CalleeOf(c).Static; inPkg(g) {
+					nf := c09Enter(c, g, x.fr)
+					for _, ret := range kit.Returns(g) {
+						if ret.Block() != g.Recover && s.Index < len(ret.Results) {
+							if why := okBucket(c09V{kit.ReturnResult(ret, s.Index), nf}, d+1); why != "" {
+								return why
+							}
+						}
+					}
+					return ""
+				}
+			}
 		case *ssa.Phi:
-			for _, e := range x.Edges {
-				if why := classify(e, seen); why != "" {
+			for _, e := range s.Edges {
+				if e == ssa.Value(s) {
+					continue
+				}
+				if why := okBucket(c09V{e, x.fr}, d+1); why != "" {
 					return why
 				}
 			}
 			return ""
 		case *ssa.Call:
-			if kit.CalleeOf(x).Static != nil && len(x.Call.Args) == 1 && c08RouteOfPtr(x.Call.Args[0].Type()) == t.route && c08RouteOfPtr(x.Type()) == t.route {
-				return classify(x.Call.Args[0], seen) // Clone
-			}
-		case *ssa.UnOp:
-			if x.Op == token.MUL {
-				if ia, ok := x.X.(*ssa.IndexAddr); ok {
-					b := m.bucketOf(ia.X)
-					if b != nil && b.tbl == t && b.next == nil {
-						if k, isc := kit.ConstInt(ia.Index); isc && k == 0 {
-							return ""
+			if g := kit.CalleeOf(s).Static; inPkg(g) && c08RouteOfSlice(s.Type()) == t.route {
+				nf := c09Enter(s, g, x.fr)
+				for _, ret := range kit.Returns(g) {
+					if ret.Block() != g.Recover && len(ret.Results) == 1 {
+						if why := okBucket(c09V{kit.ReturnResult(ret, 0), nf}, d+1); why != "" {
+							return why
 						}
-						return "an element other than element 0 of the bucket is returned"
 					}
 				}
-				if a, ok := x.X.(*ssa.Alloc); ok && a.Referrers() != nil { // result variable assigned on several paths
+				return ""
+			}
+		}
+		return "the list whose head is returned is not a bucket read from the table's map"
+	}
+	okRoute = func(x c09V, d int, seen map[ssa.Value]bool) string {
+		x = c09Res(x)
+		if d > 8 {
+			return notHead
+		}
+		if kit.IsNilConst(x.v) {
+			return ""
+		}
+		switch v := x.v.(type) {
+		case *ssa.Phi:
+			if seen[v] {
+				return ""
+			}
+			seen[v] = true
+			for _, e := range v.Edges {
+				if why := okRoute(c09V{e, x.fr}, d+1, seen); why != "" {
+					return why
+				}
+			}
+			return ""
+		case *ssa.Call:
+			g := kit.CalleeOf(v).Static
+			if isCopy(g) {
+				return okRoute(c09V{v.Call.Args[0], x.fr}, d+1, seen)
+			}
+			if inPkg(g) && c08RouteOfPtr(v.Type()) == t.route {
+				nf := c09Enter(v, g, x.fr)
+				for _, ret := range kit.Returns(g) {
+					if ret.Block() != g.Recover && len(ret.Results) == 1 {
+						if why := okRoute(c09V{kit.ReturnResult(ret, 0), nf}, d+1, map[ssa.Value]bool{}); why != "" {
+							return why
+						}
+					}
+				}
+				return ""
+			}
+		case *ssa.Extract:
+			if c, ok := v.Tuple.(*ssa.Call); ok {
+				if g := kit.CalleeOf(c).Static; inPkg(g) && c08RouteOfPtr(v.Type()) == t.route {
+					nf := c09Enter(c, g, x.fr)
+					for _, ret := range kit.Returns(g) {
+						if ret.Block() != g.Recover && v.Index < len(ret.Results) {
+							if why := okRoute(c09V{kit.ReturnResult(ret, v.Index), nf}, d+1, map[ssa.Value]bool{}); why != "" {
+								return why
+							}
+						}
+					}
+					return ""
+				}
+			}
+		case *ssa.UnOp:
+			if v.Op == token.MUL {
+				if ia, ok := v.X.(*ssa.IndexAddr); ok && c08RouteOfSlice(ia.X.Type()) == t.route {
+					if k, isc := kit.ConstInt(ia.Index); !isc || k != 0 {
+						return "an element other than element 0 of the bucket is returned"
+					}
+					return okBucket(c09V{ia.X, x.fr}, d+1)
+				}
+				if a, ok := v.X.(*ssa.Alloc); ok && a.Referrers() != nil { // result variable assigned on several paths
+					if seen[v] {
+						return ""
+					}
+					seen[v] = true
 					for _, ref := range *a.Referrers() {
 						if st, ok := ref.(*ssa.Store); ok && st.Addr == ssa.Value(a) {
-							if why := classify(st.Val, seen); why != "" {
+							if why := okRoute(c09V{st.Val, x.fr}, d+1, seen); why != "" {
 								return why
 							}
 						}
@@ -645,7 +910,7 @@ func (m *c08Model) c09ReturnShape(t *c08Table, fn *ssa.Function, keyOK func(f *t
 				}
 			}
 		}
-		return "a route that is not the head of a bucket read from the table's map is returned (fast path / cache)"
+		return notHead
 	}
 	for _, ret := range kit.Returns(fn) {
 		if ret.Block() == fn.Recover || len(ret.Results) != 1 {
@@ -654,17 +919,24 @@ func (m *c08Model) c09ReturnShape(t *c08Table, fn *ssa.Function, keyOK func(f *t
 		v := kit.ReturnResult(ret, 0)
 		if kit.IsNilConst(v) {
 			dominated := false
-			for _, lk := range lookups {
-				if kit.Precedes(lk, ret) {
-					dominated = true
+			kit.Instrs(fn, func(in ssa.Instruction) {
+				switch x := in.(type) {
+				case *ssa.Lookup:
+					if c08RouteOfMap(x.X.Type()) == t.route && kit.Precedes(x, ret) {
+						dominated = true
+					}
+				case *ssa.Call:
+					if h := kit.CalleeOf(x).Static; inPkg(h) && hasReads(h, 0) && kit.Precedes(x, ret) {
+						dominated = true
+					}
 				}
-			}
+			})
 			if !dominated && !c08TrivialNilReturn(fn, ret) {
 				bad = append(bad, "nil is returned at "+p.Pos(ret.Pos())+" before any bucket was read, on a condition other than an empty argument or an empty table (negative cache / filter): a stored route is not reported")
 			}
 			continue
 		}
-		if why := classify(v, map[ssa.Value]bool{}); why != "" {
+		if why := okRoute(c09V{v, nil}, 0, map[ssa.Value]bool{}); why != "" {
 			bad = append(bad, "return at "+p.Pos(ret.Pos())+": "+why)
 		}
 	}
